@@ -93,6 +93,7 @@ type rawPeer struct {
 	lastRecv time.Time
 	closed   bool
 	delay    time.Duration // slow reader
+	gate     *gate         // read side gated: nothing is read while the gate is shut
 }
 
 // attachRaw adds a peer stream to fs whose other end is a raw peer with identity key.
@@ -102,7 +103,7 @@ func attachRaw(fs *floodsub.FloodSub, key keyInfo, linkID uint64) *rawPeer {
 
 func attachRawSlow(fs *floodsub.FloodSub, key keyInfo, linkID uint64, delay time.Duration) *rawPeer {
 	a, b := net.Pipe()
-	rp := &rawPeer{sess: stream_packet.NewSession(b, maxMsg), conn: b, delay: delay}
+	rp := &rawPeer{sess: stream_packet.NewSession(b, maxMsg), conn: b, delay: delay, gate: newGate()}
 	go rp.readLoop()
 	fs.AddPeerStream(pubsub.PeerLinkTuple{PeerID: key.id, LinkID: linkID}, false, &fakeMS{conn: a, pid: key.id})
 	return rp
@@ -110,6 +111,7 @@ func attachRawSlow(fs *floodsub.FloodSub, key keyInfo, linkID uint64, delay time
 
 func (r *rawPeer) readLoop() {
 	for {
+		r.gate.wait()
 		p := &floodsub.Packet{}
 		if err := r.sess.RecvMsg(p); err != nil {
 			r.mu.Lock()
@@ -199,4 +201,43 @@ func safeSnap(fs *floodsub.FloodSub) *floodsub.VerifSnapshot {
 	case <-time.After(1500 * time.Millisecond):
 		return nil
 	}
+}
+
+// gate models back-pressure: a reader waits while the gate is shut.
+type gate struct {
+	mu sync.Mutex
+	ch chan struct{} // closed = open gate
+}
+
+func newGate() *gate {
+	g := &gate{ch: make(chan struct{})}
+	close(g.ch)
+	return g
+}
+
+func (g *gate) shut() {
+	g.mu.Lock()
+	select {
+	case <-g.ch:
+		g.ch = make(chan struct{})
+	default:
+	}
+	g.mu.Unlock()
+}
+
+func (g *gate) open() {
+	g.mu.Lock()
+	select {
+	case <-g.ch:
+	default:
+		close(g.ch)
+	}
+	g.mu.Unlock()
+}
+
+func (g *gate) wait() {
+	g.mu.Lock()
+	c := g.ch
+	g.mu.Unlock()
+	<-c
 }
